@@ -271,6 +271,41 @@ func (m *c11Mon) Observe(pre, post *cdpSnap, e *cdpEvent) {
 			}
 		}
 	}
+	// a block without a transaction of his never debits a user's wallet: an automatic fill of a limit bid is paid
+	// from the deposit held in custody, an English bid was paid when it was placed
+	if e.Kind == "block" {
+		for _, ac := range m.u.c.Accts {
+			for _, d := range m.u.denomList() {
+				m.rec.Eval(1)
+				if post.bal(ac.Name, d).Cmp(pre.bal(ac.Name, d)) < 0 {
+					tag := "other-user"
+					for _, lb := range pre.LimitBids {
+						if lb.BidderAddress == ac.Addr.String() {
+							tag = "limit-bidder"
+						}
+					}
+					m.rec.Violate("C11/block/wallet-debited-without-transaction/"+tag, fmt.Sprintf("%s lost %s %s in a block in which nobody sent a transaction", ac.Name, bigSub(pre.bal(ac.Name, d), post.bal(ac.Name, d)), d),
+						map[string]interface{}{"event": e.String(), "account": ac.Name, "denom": d})
+				}
+			}
+		}
+		m.rec.Count("blocks_checked_for_wallet_debits", 1)
+		for _, lb := range pre.LimitBids {
+			left := sdk.ZeroInt()
+			for _, pb := range post.LimitBids {
+				if pb.BidderAddress == lb.BidderAddress && pb.DebtTokenId == lb.DebtTokenId && pb.CollateralTokenId == lb.CollateralTokenId && pb.PremiumDiscount.Equal(lb.PremiumDiscount) {
+					left = pb.DebtToken.Amount
+				}
+			}
+			if left.LT(lb.DebtToken.Amount) {
+				if left.IsZero() {
+					m.rec.Count("limit_autofills_observed_whole_deposit", 1)
+				} else {
+					m.rec.Count("limit_autofills_observed_part_of_deposit", 1)
+				}
+			}
+		}
+	}
 	if e.Kind != "tx" || !e.Res.OK() || e.Signer == nil {
 		return
 	}
